@@ -198,6 +198,18 @@ def main():
                 search=bool(proof_broken or model_broken))
     except Exception:
         crashed = traceback.format_exc()
+    # the correspondence broke but the oracle saw no failing input yet: search the implementation harder
+    # (thorough-size exploration with other seeds) before reporting "no-failing-input-found"
+    if res.disagreements and not res.violations and not crashed and not (proof_broken or model_broken):
+        res2 = common.Result()
+        try:
+            mod.run(res2, tier=tier, seed=seed + 7919, model_ok=not model_broken, search=True)
+            res.violations += res2.violations
+            res.extra["failing_input_search"] = {"evaluations": res2.evaluations, "oracle_violations": len(res2.violations)}
+            for k, v in res2.known_hits.items():
+                res.known_hits[k] += v
+        except Exception:
+            res.notes.append("failing-input search crashed: " + traceback.format_exc()[-300:])
 
     known = [k for k in load_known() if k.get("property") == prop]
     known_sigs = {k["signature"]: k for k in known if k.get("status") == "known"}
